@@ -609,7 +609,9 @@ func c19Queries(c *work.Ctx) {
 func c19Histories(c *work.Ctx) {
 	vals := c19Values()[:6]
 	mk := func(fs ...*json.FieldQuery) *json.FieldQuery { return &json.FieldQuery{Fields: fs} }
-	n := func(name string, fs ...*json.FieldQuery) *json.FieldQuery { return &json.FieldQuery{Name: name, Fields: fs} }
+	n := func(name string, fs ...*json.FieldQuery) *json.FieldQuery {
+		return &json.FieldQuery{Name: name, Fields: fs}
+	}
 	queriesFor := func(t reflect.Type) []*json.FieldQuery {
 		if structBelow(t) == reflect.TypeOf(Q1{}) {
 			return []*json.FieldQuery{
